@@ -5,7 +5,7 @@ From Coq Require Import String List Bool.
 Import ListNotations.
 Open Scope string_scope.
 
-Inductive site_kind := KMapRange | KSelect | KWallClock | KRandom | KRandomId | KGoStmt | KSyncPool | KHashSeed | KPtrOrder.
+Inductive site_kind := KMapRange | KSelect | KWallClock | KRandom | KRandomId | KGoStmt | KSyncPool | KHashSeed | KPtrOrder | KSharedObj.
 
 Record site := mk_site {
   s_kind : site_kind;
